@@ -487,7 +487,13 @@ class TextNmea2000Gateway(AsyncIOClient):
         a standard NMEA2000 message) and processes it. It's called repeatedly
         by the _receive_loop() method.
         """
-        data = await self.reader.readline()
+        try:
+            data = await self.reader.readline()
+        except ValueError as e:
+            # readline() has discarded a line longer than the stream reader's limit (64 KiB): that is
+            # undecodable input, not a lost connection. Keep reading.
+            self.logger.warning(f"Discarding over-long line. Error: {e}")
+            return
         if not data:
             # readline() returns b'' at once (without suspending) after end of stream
             raise ConnectionError("Connection closed by the gateway")
